@@ -647,3 +647,38 @@ func EdgeIfs(edges []Edge) []ssa.Instruction {
 	}
 	return out
 }
+
+// PhiEdges is PhiEdgeSinks at edge granularity: the CFG edges (pred block,
+// successor index) through which a value satisfying pred flows into a phi
+// named `name`.
+func PhiEdges(fn *ssa.Function, name string, pred func(v ssa.Value) bool) []Edge {
+	var out []Edge
+	seen := map[Edge]bool{}
+	for _, b := range fn.Blocks {
+		for _, in := range b.Instrs {
+			phi, ok := in.(*ssa.Phi)
+			if !ok {
+				break
+			}
+			if phi.Comment != name {
+				continue
+			}
+			for i, e := range phi.Edges {
+				if _, isPhi := e.(*ssa.Phi); isPhi || !pred(e) {
+					continue
+				}
+				pb := b.Preds[i]
+				for si, s := range pb.Succs {
+					if s == b {
+						ed := Edge{pb, si}
+						if !seen[ed] {
+							seen[ed] = true
+							out = append(out, ed)
+						}
+					}
+				}
+			}
+		}
+	}
+	return out
+}
